@@ -40,7 +40,7 @@ def _kernel_asym(k):
 
 
 @st.composite
-def setup(draw, max_inner=7, max_k=7, kinds=("nonneg", "signed", "sparse", "normalised")):
+def setup(draw, max_inner=7, max_k=7, kinds=("nonneg", "signed", "sparse", "normalised", "integer")):
     ker = draw(gens.kernels(max_side=max_k, kinds=kinds))
     kh, kw = len(ker["values"]), len(ker["values"][0])
     hy, hx = kh // 2, kw // 2
